@@ -25,6 +25,7 @@
 -/
 import GoSecs.Lemmas.Lifecycle
 import GoSecs.Gen.Facts
+import GoSecs.Gen.Hsms
 
 namespace GoSecs.Props.C11
 open GoSecs.Lifecycle
@@ -110,6 +111,26 @@ theorem clamp_spec (scaled T5 : Int) :
     (0 < scaled ∧ scaled ≤ T5 → clampNext scaled T5 = scaled) ∧
     (scaled ≤ 0 ∨ scaled > T5 → clampNext scaled T5 = T5) :=
   ⟨fun h => clampNext_of_range _ _ h.1 h.2, clampNext_of_out _ _⟩
+
+/-- **`nextBackoffDelay`, regenerated from hsms/connection_lifecycle.go, is the model's `clampNext`** of whatever
+    integer the float product `time.Duration(float64(cur) * multiplier)` converts to (floats are not represented: the
+    converted value is the one oracle value, so NaN, ±Inf, overflow, tiny and huge multipliers are all covered — Go leaves
+    such conversions to the implementation): the `next <= 0 || next > ceil` guard, the cap, and nothing else. -/
+theorem nextBackoffDelay_gen (cur ceil scaled : Int) (rest : List Go.Val) :
+    GoSecs.Gen.hsms_nextBackoffDelay cur ceil (.int scaled :: rest) =
+      (clampNext scaled ceil, [.call "float.toInt" [.opaque]], rest) := by
+  have key : ∀ (next : Int) (tr : List Go.Effect),
+      (if (decide (next ≤ 0) || decide (next > ceil)) then (ceil, tr, rest) else (next, tr, rest)) =
+        (clampNext next ceil, tr, rest) := by
+    intro next tr
+    unfold clampNext
+    by_cases h : next ≤ 0 ∨ next > ceil
+    · have hb : (decide (next ≤ 0) || decide (next > ceil)) = true := by rcases h with h | h <;> simp [h]
+      simp only [hb, h, reduceIte]
+    · have hb : (decide (next ≤ 0) || decide (next > ceil)) = false := by
+        simp only [not_or] at h; simp [h.1, h.2]
+      simp only [hb, h, reduceIte, Bool.false_eq_true]
+  exact key scaled _
 
 /-! ## Reconnect counter -/
 
